@@ -7,8 +7,8 @@ TECHNIQUE = "reference-model monitor (R7) over the recorded uninterrupted instru
 FLAVOURS = [("asan", "generated")]
 RULE = ("ALL histories of length L (quick 5, thorough 6; all shorter ones are their prefixes) over {execute, executeSingle, stepping on, clear, "
         "reset, enable loc A, disable loc A, enable loc B} on 4 small programs (7 in the thorough tier) (loop+call, line with several sites, callee with STOP), plus "
-        "random histories of 20-200 calls (incl. stepping off, unavailable locations, inspection) on generated programs incl. non-terminating "
-        "ones; after EVERY call: instruction pointer = P[k], digest of all activations' variables and digest of data words + activation geometry "
+        "random histories of 20-200 calls (incl. stepping off, unavailable locations, inspection) on generated programs incl. non-terminating ones and five programs of unusual size (a line with 300 sites, 260 labelled lines, a call chain 130 deep, 260 included files, LOOPs nested 70 deep); "
+        "after EVERY call: instruction pointer = P[k], digest of all activations' variables and digest of data words + activation geometry "
         "= those recorded at index k of the uninterrupted run, BREAK opcodes exactly at the sites of enabled lines; "
         "non-trivial = history with >= 1 successful enable and >= 1 stop at a site; distinct by SHA-1 of (files, history)")
 ASSUMPTIONS = ["the uninterrupted run of the same VM build is the reference path (recorded by the driver with executeSingle on a fresh VM)",
